@@ -34,6 +34,7 @@ structure Store where
   counter : Nat
   pending : Option Pending
   current : Option Nat
+  writing : List Nat := []   -- completed snapshots whose file is being written (`finishSnapshotAsync` before its lock)
   deriving DecidableEq, Repr
 
 /-- what an operator process keeps between calls: `status.IsReady`, `sourceRunners.all`, `checkpoint` -/
@@ -43,6 +44,14 @@ structure OpProc where
   inflight : Option (Nat × List Nat) := none   -- checkpoint id, source runners whose barrier is still missing
   epoch : Nat := 0                             -- ghost: number of HandleDeploy calls so far
   batch : List (Nat × Nat) := []               -- eventBatcher: (event tag, ghost: epoch in which it arrived)
+
+/-- the local state of one run of the checkpoint ticker callback (`jobs/job.go`, the closure given to `clock.Every`):
+the operator ids it read from `j.assembly`, and — after `CreateCheckpoint` — the id and the source runners of the
+`j.assembly` it read for `StartCheckpoint` -/
+structure Tick where
+  ops : List Nat
+  start : Option (Nat × List Nat) := none
+  deriving DecidableEq, Repr
 
 structure St where
   w : Nat                     -- config.WorkerCount
@@ -59,6 +68,7 @@ structure St where
   startCk : Option Nat        -- checkpoint read by the start goroutine that is in flight
   store : Store
   procs : Nat → OpProc
+  tk : Option Tick := none    -- a checkpoint ticker callback that is in flight (it runs OUTSIDE the task queue)
 
 def init (w d c0 : Nat) (bmax : Nat := 3) : St :=
   { w := w, bmax := bmax, d := d, now := 1000, ops := [], srs := [], live := fun _ => none, status := .init,
@@ -127,10 +137,11 @@ inductive AckRes
   | ok (pub : Option Nat) | nopending | mismatch | unknown
   deriving DecidableEq, Repr
 
-/-- publish when every expected member has acknowledged -/
+/-- when every expected member has acknowledged the snapshot is complete: `finishSnapshot` hands it to a goroutine
+that writes the file and only then (action `.publish`) makes it the current checkpoint -/
 def finish (st : Store) (p : Pending) : Store × AckRes :=
   if p.waitOps.isEmpty && p.waitSrs.isEmpty then
-    ({ st with pending := none, current := some p.id }, .ok (some p.id))
+    ({ st with pending := none, writing := st.writing ++ [p.id] }, .ok (some p.id))
   else ({ st with pending := some p }, .ok none)
 
 /-- `Store.AddSourceSnapshot` -/
@@ -151,12 +162,37 @@ def ackO (st : Store) (i id : Nat) : Store × AckRes :=
     else if p.expOps.contains i then finish st { p with waitOps := p.waitOps.filter (· ≠ i) }
     else finish st p
 
+/-- a snapshot being written was completed under an id the counter has reached, before any pending one -/
+def canPublish (st : Store) (n : Nat) : Bool :=
+  st.writing.contains n && decide (n ≤ st.counter) &&
+    (match st.pending with
+     | some p => decide (n < p.id)
+     | none => true)
+
+/-- `finishSnapshotAsync` under the lock: a newer snapshot that was published earlier stays the current one -/
+def pubCurrent (cur : Option Nat) (n : Nat) : Option Nat :=
+  match cur with
+  | some c => if c < n then some n else some c
+  | none => some n
+
 inductive Act
   | regO (i : Nat) | regS (i : Nat) | deregO (i : Nat) | deregS (i : Nat) | adv (n : Nat)
   | deployOk | deployFail (k : Nat)
   | tick | ackS (i id : Nat) | ackO (i id : Nat) | bar (i s id : Nat)
   | ev (i s tag : Nat) | flush (i : Nat)
+  -- the checkpoint ticker callback in the three pieces between which tasks of the job's queue can run (the callback is
+  -- not a task): read `j.assembly` for the operator ids; read it for the runner ids, `CreateCheckpoint`, read it again
+  -- for `StartCheckpoint`; the `StartCheckpoint` calls arrive
+  | tickA | tickB | tickC
+  -- the file of completed snapshot `n` has been written: `finishSnapshotAsync` takes the lock and makes it current
+  | publish (n : Nat)
   deriving DecidableEq, Repr
+
+/-- the actions of a schedule in which every ticker callback runs without a task of the queue in between (then it is
+the single action `.tick`). The code has no lock that enforces this: finding D57. -/
+def Act.serial : Act → Bool
+  | .tickA | .tickB | .tickC => false
+  | _ => true
 
 /-- the tasks that change the registry (each ends with `evaluateClusterStatus`) -/
 def Act.membership : Act → Bool
@@ -173,6 +209,8 @@ inductive Out
   | ack (r : AckRes)
   | barOk | barAcked (pub : Option Nat) (flushed : List (Nat × Nat)) (epoch : Nat)
   | barAckErr (r : AckRes) (flushed : List (Nat × Nat)) (epoch : Nat) | barMismatch | barBlocked | barNotReady
+  | tickRead (ops : List Nat) | ckptCreated (id : Nat) | noTick
+  | published (n : Nat) (cur : Option Nat) | nothing
   | evQueued | processed (batch : List (Nat × Nat)) (epoch : Nat) | flushEmpty
   deriving DecidableEq, Repr
 
@@ -266,12 +304,36 @@ def step (s : St) : Act → St × Out
         | none =>
           let n := s.store.counter + 1
           let p : Pending := { id := n, expOps := s.asmOps, expSrs := s.asmSrs, waitOps := s.asmOps, waitSrs := s.asmSrs }
-          ({ s with store := { counter := n, pending := some p, current := s.store.current } }, .ckpt n s.asmSrs)
+          ({ s with store := { s.store with counter := n, pending := some p } }, .ckpt n s.asmSrs)
   | .ackS i id => let (st', r) := ackS s.store i id; ({ s with store := st' }, .ack r)
   | .ackO i id => let (st', r) := ackO s.store i id; ({ s with store := st' }, .ack r)
   | .bar i sr id => barrier s i sr id
   | .ev i sr tag => event s i sr tag
   | .flush i => flushBatch s i
+  | .publish n =>
+      if canPublish s.store n then
+        ({ s with store := { s.store with writing := s.store.writing.erase n, current := pubCurrent s.store.current n } },
+         .published n (pubCurrent s.store.current n))
+      else (s, .nothing)
+  | .tickA =>
+      if !s.ticker then (s, .stopped)
+      else if s.tk.isSome then (s, .noTick)
+      else ({ s with tk := some { ops := s.asmOps } }, .tickRead s.asmOps)
+  | .tickB =>
+      match s.tk with
+      | some { ops := ops, start := none } =>
+        (match s.store.pending with
+        | some _ => ({ s with tk := none }, .retry)
+        | none =>
+          let n := s.store.counter + 1
+          let p : Pending := { id := n, expOps := ops, expSrs := s.asmSrs, waitOps := ops, waitSrs := s.asmSrs }
+          ({ s with store := { s.store with counter := n, pending := some p },
+                    tk := some { ops := ops, start := some (n, s.asmSrs) } }, .ckptCreated n))
+      | _ => (s, .noTick)
+  | .tickC =>
+      match s.tk with
+      | some { ops := _, start := some (n, srs) } => ({ s with tk := none }, .ckpt n srs)
+      | _ => (s, .noTick)
 
 def run (s : St) : List Act → St × List Out
   | [] => (s, [])
@@ -281,13 +343,18 @@ def run (s : St) : List Act → St × List Out
     (s2, o :: os)
 
 /-- one complete checkpoint round of the current assembly: the ticker fires, every source runner acknowledges, and
-every operator receives the barrier of every source runner -/
+every operator receives the barrier of every source runner, the snapshot file is written -/
 def progressActs (s : St) : List Act :=
   Act.tick :: ((s.asmSrs.map fun x => Act.ackS x (s.store.counter + 1)) ++
-    (s.asmOps.flatMap fun i => s.asmSrs.map fun x => Act.bar i x (s.store.counter + 1)))
+    (s.asmOps.flatMap fun i => s.asmSrs.map fun x => Act.bar i x (s.store.counter + 1))) ++
+    [Act.publish (s.store.counter + 1)]
 
 /-- the states of all traces from all initial configurations -/
-def Reachable (s : St) : Prop := ∃ w d c0 bmax acts, s = (run (init w d c0 bmax) acts).1
+def Reachable (s : St) : Prop :=
+  ∃ w d c0 bmax acts, (∀ a ∈ acts, a.serial = true) ∧ s = (run (init w d c0 bmax) acts).1
+
+/-- the states of all traces, ticker callbacks interleaved with tasks included -/
+def ReachableAny (s : St) : Prop := ∃ w d c0 bmax acts, s = (run (init w d c0 bmax) acts).1
 
 /-- registered with an unexpired heartbeat -/
 def alive (s : St) (i : Nat) : Prop := ∃ hb, s.live i = some hb ∧ expired s.d s.now hb = false
